@@ -12,9 +12,19 @@
 #ifdef VF_ALLOC_TRACK
 // C11 (SCHED part): the DDL races of C13 under allocation accounting: whatever a losing create_storage / delete_storage
 // allocated speculatively must be released again.
+using CaseFn = vf::CaseResult (*)(const vf::RunnerArgs&, const std::vector<std::uint8_t>&, bool, vf::Stats&);
+static vf::CaseResult run_dml_as_c01(const vf::RunnerArgs& a, const std::vector<std::uint8_t>& b, bool record, vf::Stats& st) {
+    // point-operation races (profile of C01) judged only by the allocation balance here
+    vf::RunnerArgs aa = a;
+    aa.prop = "C01";
+    aa.extra.clear();
+    vf::CaseResult r = dml::run_case(aa, b, record, st);
+    return r;
+}
 static vf::CaseResult run_ddl_leak(const vf::RunnerArgs& a, const std::vector<std::uint8_t>& b, bool record, vf::Stats& st) {
     static std::uint32_t gen = 100;
     static bool warmed = false;
+    const CaseFn inner = a.extra == "dml" ? run_dml_as_c01 : misc::run_ddl;
     auto once = [&](bool judge, bool rec) {
         vf::CaseResult r;
         const std::uint32_t g = ++gen;
@@ -24,7 +34,7 @@ static vf::CaseResult run_ddl_leak(const vf::RunnerArgs& a, const std::vector<st
         {
             vf::Stats tmp;
             track::set_generation(g);
-            r = misc::run_ddl(a, b, rec, tmp);
+            r = inner(a, b, rec, tmp);
             track::set_generation(0);
             if (rec) {
                 st.checks += tmp.checks;
@@ -45,7 +55,7 @@ static vf::CaseResult run_ddl_leak(const vf::RunnerArgs& a, const std::vector<st
                 track::describe_generation(g, buf, sizeof buf);
                 r.pass = false;
                 r.signature = "leak";
-                r.message = std::to_string(leaked) + " block(s), " + std::to_string(leaked_bytes) + " bytes allocated during concurrent create/delete_storage are still live: " + buf;
+                r.message = std::to_string(leaked) + " block(s), " + std::to_string(leaked_bytes) + " bytes allocated during the case are still live after every storage was destroyed and every retire queue drained: " + buf + (r.message.empty() ? "" : "\n" + r.message);
             } else if (track::errors() != err0) {
                 r.pass = false;
                 r.signature = "bad_delete";
@@ -82,8 +92,7 @@ int main(int argc, char** argv) {
     if (args.prop == "C16" || args.prop == "C07") {
         // every case must be a pure function of its bytes: the first init()/fin() cycle of a process can only happen once, so
         // it is spent here and every generated cycle is "a later cycle" (which is what C16 is about)
-        yakushima::init();
-        yakushima::fin();
+        epo::warmup_cycle();
     }
 #endif
     return vf::runner_main(args, [](const vf::RunnerArgs& a, const std::vector<std::uint8_t>& b, bool record, vf::Stats& st) {
